@@ -1,6 +1,7 @@
 package main
 
 import (
+	"os"
 	"fmt"
 	"go/token"
 	"go/types"
@@ -73,8 +74,33 @@ func (fr *Frame) exec(in ssa.Instruction) {
 		}
 		addr := fr.get(x.Addr)
 		val := fr.get(x.Val)
+		if os.Getenv("GOVC_STOREDBG") != "" {
+			fmt.Fprintf(os.Stderr, "STOREDBG0 addr=%T %+v ssa=%T %s\n", addr, addr, x.Addr, x.Addr)
+		}
 		p, ok := addr.(PtrV)
 		if !ok {
+			// a pointer that was just loaded from a known location (p := holder.field; *p = v):
+			// in the value model of pointers the store is a write of ref(v) to that location
+			if os.Getenv("GOVC_STOREDBG") != "" {
+				fmt.Fprintf(os.Stderr, "STOREDBG addr=%T ssa=%T %s\n", addr, x.Addr, x.Addr)
+			}
+			if ld, isLoad := x.Addr.(*ssa.UnOp); isLoad && ld.Op == token.MUL {
+				if hp, isP := fr.get(ld.X).(PtrV); isP && hp.Cell != nil {
+					if pt, isPT := ld.Type().Underlying().(*types.Pointer); isPT {
+						if vt, okv := fr.term(val); okv {
+							done := false
+							func() {
+								defer func() { recover() }()
+								fr.store(hp, PtrRef(PtrSort(pt.Elem()), vt))
+								done = true
+							}()
+							if done {
+								return
+							}
+						}
+					}
+				}
+			}
 			if _, isOp := addr.(OpaqueV); isOp {
 				return // store into ignored (opaque) memory, e.g. varargs of fmt.Errorf
 			}
@@ -97,7 +123,7 @@ func (fr *Frame) exec(in ssa.Instruction) {
 					keep = append(keep, al)
 				}
 			}
-			fr.ex.ptrAliases = append(keep, ptrAlias{p.Cell, append([]PathEl{}, p.Path...), tp})
+			fr.ex.ptrAliases = append(keep, ptrAlias{p.Cell, append([]PathEl{}, p.Path...), tp, fr.cur})
 		}
 		if mv, isM := val.(MapV); isM && len(p.Path) == 0 {
 			// a locally made map assigned to a variable cell: the cell aliases the map
@@ -863,7 +889,21 @@ func (fr *Frame) execReturn(x *ssa.Return) {
 		}
 		vals = append(vals, v)
 	}
-	fr.rets = append(fr.rets, retInfo{guard: fr.cur, vals: vals, mem: fr.mem.clone()})
+	fr.rets = append(fr.rets, retInfo{guard: fr.cur, vals: vals, mem: fr.mem.clone(), block: fr.curBlock})
+	if fr.top && fr.con != nil {
+		for _, cl := range fr.con.ExitAsserts {
+			env := fr.bodyEnv(fr.curBlock, fr.mem)
+			if env == nil {
+				continue
+			}
+			t, err := env.EvalBool(cl.Expr)
+			if err != nil {
+				fr.ex.oos("%s: exit-assert %s: %v", shortName(fr.fn.String()), cl.Label, err)
+				continue
+			}
+			fr.ex.oblige(fmt.Sprintf("exit#%d/assert:%s", len(fr.rets), cl.Label), "assert", fr.ex.P.Pos(fr.fn.Pos()), fr.cur, t)
+		}
+	}
 }
 
 func (fr *Frame) execPanic(x *ssa.Panic) {
